@@ -230,6 +230,9 @@ for st in steps:
         out.append([k, getattr(o, "name", None)])
     except Exception as e:
         out.append([type(e).__name__, str(e)[:80]])
+names = sorted(registry.list_crypt_handlers())
+bad = [n for n in names if getattr(registry.get_crypt_handler(n), "name", None) != n or getattr(H, n) is not registry.get_crypt_handler(n)]
+out.append(["REGISTRY", names, bad])
 print(json.dumps(out))
 ''' % chk.repo
     for b in behs:
@@ -240,6 +243,10 @@ print(json.dumps(out))
         except Exception:
             raise tlc.MachineryError(f"registry child failed: {p.stderr[-300:]}")
         chk.traces += 1
+        tail = got.pop() if got and got[-1][0] == "REGISTRY" else None
+        if tail is not None and (tail[1] != names or tail[2]):
+            chk.violation("registry:enumeration-after-access", f"after the access sequence the registry lists {sorted(set(tail[1]) ^ set(names))} differently / names whose hasher carries another name: {tail[2]}",
+                          {"sequence": [{k: s[k] for k in ('op', 'name', 'form')} for s in b], "extra_or_missing": sorted(set(tail[1]) ^ set(names)), "mismatched": tail[2]})
         for st, g in zip(b, got):
             chk.count(("registry", st["op"], st["form"], st["name"]))
             chk.action("registry." + st["op"])
